@@ -101,6 +101,18 @@ def writer_text(kind, uri):
     raise MachineryError("unknown kind %r" % kind)
 
 
+def api_call(ns, api, uri):
+    """a lookup made through the Namespace API of namespace expression `ns`"""
+    q = json.dumps(uri)
+    if api == "gettmpl":
+        return "${%s.get_template(%s).render()}" % (ns, q)
+    if api == "incfile":
+        return "<%% %s.include_file(%s) %%>" % (ns, q)
+    if api == "getns":
+        return "${%s.get_namespace(%s).body()}" % (ns, q)
+    raise MachineryError("unknown api %r" % api)
+
+
 def uri_files(layouts, layout, reqs):
     """All files of a scenario: {(root, 'a/b/name.html'): text}; entry URIs of the requests."""
     lay = layouts[layout - 1]
@@ -111,14 +123,30 @@ def uri_files(layouts, layout, reqs):
             files[(r, (path + "/" if path else "") + "t.html")] = "{at|%s|%d}" % (path, r)
     entries = []
     for rq in reqs:
-        hopname = "u%d.html" % rq["s2"]
-        if rq["s2"]:
+        k2 = rq.get("k2", "include")
+        api = k2.split(".")[1] if "." in k2 else None
+        if not rq["s2"]:
+            hopname, hoptext = "t.html", None
+        elif api is None:                      # hop file u: an <%include> carrying the second spelling
+            hopname, hoptext = "u%d.html" % rq["s2"], writer_text("include", spelled(rq["u2"], "t.html"))
+        else:                                  # helper H; its def show() makes the second lookup for the in.<api> kinds
+            hopname = "h%d_%s.html" % (rq["s2"], k2.replace(".", "_"))
+            call = api_call("self" if api == "gettmpl" else "local", api, spelled(rq["u2"], "t.html"))
+            hoptext = '<%%def name="show()">%s</%%def>helper-body' % (call if k2.startswith("in.") else "nothing")
+        if hoptext is not None:
             for d in lay["dirs"]:
                 path = "/".join(d["path"])
-                files[(1, (path + "/" if path else "") + hopname)] = writer_text("include", spelled(rq["u2"], "t.html"))
-        wname = "w_%d_%s_%d.html" % (rq["s1"], rq["k1"], rq["s2"])
+                files[(1, (path + "/" if path else "") + hopname)] = hoptext
+        wname = "w_%d_%s_%d_%s.html" % (rq["s1"], rq["k1"], rq["s2"], k2.replace(".", "_"))
         wpath = "/".join(rq["w"])
-        files[(1, (wpath + "/" if wpath else "") + wname)] = writer_text(rq["k1"], spelled(rq["u1"], hopname if rq["s2"] else "t.html"))
+        u1 = spelled(rq["u1"], hopname)
+        if api is None:
+            wtext = writer_text(rq["k1"], u1)
+        else:
+            q = json.dumps(u1)
+            wtext = ('<%%namespace name="h" file=%s/>' % q) if rq["k1"] == "nsfile" else ("<%% h = local.get_namespace(%s) %%>" % q)
+            wtext += "${h.show()}" if k2.startswith("in.") else api_call("h", api, spelled(rq["u2"], "t.html"))
+        files[(1, (wpath + "/" if wpath else "") + wname)] = wtext
         entries.append("/" + (wpath + "/" if wpath else "") + wname)
     return files, entries
 
@@ -329,7 +357,7 @@ def signature(c, exp, obs):
         if rq["u1"]["empty"] or (rq["s2"] and rq["u2"]["empty"]):
             return "uri:empty-uri:expected(%s):observed(%s)" % (_cls(e), _cls(o)), d
         what = "wrong-target" if (e or "").startswith("at|") and (o or "").startswith("at|") else "expected(%s):observed(%s)" % (_cls(e), _cls(o))
-        return "uri:%s:%s%s%s:%s" % (rq["k1"], _features(rq["u1"]), (":hop2-" + _features(rq["u2"])) if rq["s2"] else "",
+        return "uri:%s:%s%s%s:%s" % (rq["k1"], _features(rq["u1"]), (":hop2(%s)-" % rq.get("k2", "include") + _features(rq["u2"])) if rq["s2"] else "",
                                      ":request%d" % (d + 1) if len(c["reqs"]) > 1 else "", what), d
     prev = exp[d - 1] if d else "START"
     if c["fam"] == "nsprec" and c["imp"] == "star" and e and o and e[0] == "I" and o[0] == "F" and prev == "call|" + e[2:] \
@@ -347,8 +375,10 @@ def random_session(rng, nsp, plain_sp, thorough):
     reqs = []
     for _ in range(n):
         s2 = rng.choice([0, 0] + list(range(1, nsp)))       # (nsp = the empty URI, not used for hop files)
+        k2 = "none" if not s2 else rng.choice(["include", "include", "out.gettmpl", "out.incfile", "out.getns", "in.gettmpl", "in.incfile", "in.getns"])
+        k1 = rng.choice(kinds) if not s2 else ("include" if k2 == "include" else rng.choice(["nsfile", "getns"]))
         reqs.append({"w": rng.randrange(1, 6), "s1": rng.randrange(1, nsp + 1) if not s2 else rng.randrange(1, nsp),
-                     "k1": rng.choice(kinds) if not s2 else "include", "s2": s2})
+                     "k1": k1, "s2": s2, "k2": k2})
     return {"fam": "uri", "layout": layout, "reqs": reqs}
 
 
@@ -434,7 +464,7 @@ def check(run):
             files, entries = uri_files(layouts, c["layout"], c["reqs"])
             rq = c["reqs"][min(d, len(c["reqs"]) - 1)]
             rep["render"] = entries
-            rep["files"] = {"root%d/%s" % k: v for k, v in files.items() if "/w_" in "/" + k[1] or k[1].split("/")[-1].startswith("u")}
+            rep["files"] = {"root%d/%s" % k: v for k, v in files.items() if "/w_" in "/" + k[1] or k[1].split("/")[-1][0] in "uh"}
             rep["spelled"] = spelled(rq["u1"], "t.html")
         run.violation(sig, "real mako disagrees with Namespaces.tla at token %d: expected %s, observed %s (%d scenarios in this class)"
                       % (d, recs[idx]["out"][d] if d < len(recs[idx]["out"]) else "END", obs[d] if d < len(obs) else "END", len(bad[sig])), rep)
@@ -466,7 +496,7 @@ def check(run):
     for t in range(n_sessions):
         s = random_session(run.rng, nsp, None, thorough)
         conc = {"fam": "uri", "layout": s["layout"],
-                "reqs": [{"w": dirs[q["w"] - 1], "k1": q["k1"], "s1": q["s1"], "s2": q["s2"], "u1": spell[q["s1"]],
+                "reqs": [{"w": dirs[q["w"] - 1], "k1": q["k1"], "k2": q["k2"], "s1": q["s1"], "s2": q["s2"], "u1": spell[q["s1"]],
                           "u2": spell[q["s2"]] if q["s2"] else {"abs": False, "segs": [], "empty": True}} for q in s["reqs"]]}
         size = run.rng.choice([-1, -1, 1, 2])       # a bounded collection also bounds the _uri_cache memo
         try:
